@@ -63,7 +63,7 @@ func main() {
 		for _, k := range sortedKeys(stats) {
 			fmt.Fprintf(os.Stderr, "%s=%d\n", k, stats[k])
 		}
-	case "arith", "taintops", "filters", "resources", "awsops", "fleetops":
+	case "arith", "taintops", "filters", "resources", "awsops", "fleetops", "validate", "decode":
 		stats := map[string]int{}
 		r := newRng(*seed)
 		switch stream {
@@ -79,6 +79,10 @@ func main() {
 			runAwsOps(r, *n, false, w, stats)
 		case "fleetops":
 			runAwsOps(r, *n, true, w, stats)
+		case "validate":
+			runValidate(r, *n, w, stats)
+		case "decode":
+			runDecode(w, stats)
 		}
 		for _, k := range sortedKeys(stats) {
 			fmt.Fprintf(os.Stderr, "%s=%d\n", k, stats[k])
